@@ -304,7 +304,11 @@ func c04Scenarios(tier string) []schedx.Scenario {
 	}
 	for _, st := range []string{"memory", "redis"} {
 		for _, n := range []string{"duplicate-callback", "two-browsers", "attacker-swaps-cookie"} {
-			scs = append(scs, c04Scenario(n, st, b))
+			bb := b
+			if st == "redis" && b < 0 {
+				bb = 3 // every Redis command is a scheduling point: unbounded interleavings are out of reach there
+			}
+			scs = append(scs, c04Scenario(n, st, bb))
 		}
 	}
 	if tier == "thorough" {
@@ -314,7 +318,7 @@ func c04Scenarios(tier string) []schedx.Scenario {
 }
 
 func c04Opts(tier string, spec world.Spec) hOpts {
-	o := hOpts{Spec: spec, Attacker: true, NearMiss: true, Replays: true, MaxSessions: 3}
+	o := hOpts{Spec: spec, Attacker: true, NearMiss: true, Replays: true, MaxSessions: 3, OddCookies: spec.Store == "memory" && !spec.Discovery}
 	if tier == "thorough" {
 		o.MaxSessions = 3
 		o.Advance = true
